@@ -1,5 +1,6 @@
 """C17 — a failing run reports failure and leaves existing output untouched."""
 import hashlib
+import json
 import os
 import tempfile
 
@@ -40,6 +41,13 @@ def fault_cases():
         cases.append(("lookup-to-scalar/" + pos, *place(["-m", "Root", "x", "sc.json"], {"sc.json": {"x": 5}}), True))
         cases.append(("lookup-through-list/" + pos, *place(["-m", "Root", "x.y", "li.json"], {"li.json": {"x": [1]}}), True))
         cases.append(("toplevel-scalar/" + pos, *place(["-m", "Root", "s.json"], {"s.json": "7"}), True))
+        # every JSON kind that is neither an object nor a list, as the whole document and as the value a lookup selects
+        for label, doc in (("null", None), ("true", True), ("float", 1.5), ("string", "abc"), ("empty-string", "")):
+            cases.append((f"lookup-to-{label}/" + pos, *place(["-m", "Root", "x", "lk.json"], {"lk.json": {"x": doc, "y": GOOD}}), True))
+            cases.append((f"nested-lookup-to-{label}/" + pos,
+                          *place(["-l", "Root", "x.y", "lk2.json"], {"lk2.json": {"x": {"y": doc}}}), True))
+            cases.append((f"toplevel-{label}/" + pos, *place(["-m", "Root", "tl.json"], {"tl.json": json.dumps(doc)}), True))
+        cases.append(("null-among-samples/" + pos, *place(["-m", "Root", "ns.json"], {"ns.json": [{"a": 1}, None]}), True))
         cases.append(("non-object-sample/" + pos, *place(["-m", "Root", "n.json"], {"n.json": [1, 2]}), True))
         cases.append(("one-arg-model/" + pos, *place(["-m", "Root"]), True))
         cases.append(("four-arg-model/" + pos, *place(["-m", "Root", "-", "good1.json", "extra"]), True))
@@ -51,7 +59,13 @@ def fault_cases():
                 a_good, a_bad = ["-m", "Root", "good." + ext], ["-m", "Root", bad]
                 argv = {"first": a_bad + a_good, "last": a_good + a_bad, "alone": a_bad}[order] + ["-i", fmt]
                 cases.append((f"{label}-{fmt}/{order}", gf, argv, True))
-    y = {"good1.yaml": "- a: 1\n  b: x\n", "bad.yaml": "- a: [1\n", "intkey.yaml": "- 1: x\n  2: y\n"}
+    y = {"good1.yaml": "- a: 1\n  b: x\n", "bad.yaml": "- a: [1\n", "intkey.yaml": "- 1: x\n  2: y\n", "empty.yaml": "",
+         "nulldoc.yaml": "~\n", "nullkey.yaml": "x: ~\ny: 1\n"}
+    for order in ("first", "last", "alone"):
+        for bad, lk in (("empty.yaml", None), ("nulldoc.yaml", None), ("nullkey.yaml", "x")):
+            a_good = ["-m", "Root", "good1.yaml"]
+            a_bad = ["-m", "Root"] + ([lk] if lk else []) + [bad]
+            cases.append((f"yaml-{bad}/{order}", y, {"first": a_bad + a_good, "last": a_good + a_bad, "alone": a_bad}[order] + ["-i", "yaml"], True))
     cases.append(("malformed-yaml", y, ["-m", "Root", "good1.yaml", "-m", "Root", "bad.yaml", "-i", "yaml"], True))
     cases.append(("non-string-keys", y, ["-m", "Root", "good1.yaml", "-m", "Root", "intkey.yaml", "-i", "yaml"], True))
     ini = {"good.ini": "[s]\na = 1\n", "bad.ini": "a = 1\n[s\n"}
